@@ -25,6 +25,7 @@ CHECKS = {
  "C13": ("exploration", "seeded search over Repository operation histories x registry capability profiles x Repository options x Read/Seek sequences, against a stateful simulated registry that is both reference model and request validator; optionally one single-field corruption of a response, judged when the corrupted field is pinned by the request", "deterministic simulation: real client stack against a simulated registry (RoundTripper seam) with response-corruption injection; model comparison + spec validator", "4.C13"),
  "C14": ("exploration", "seeded search over multisets of referrer push/delete operations issued by 2-6 tasks through one Repository against a registry without the Referrers API, over every interleaving point of the HTTP exchanges and the merge protocol, pre-existing dirty indexes, SkipReferrersGC, and injected failures of index exchanges; listing after quiescence compared with the model of an API-capable registry; a capability-flip probe against a self-contradicting registry", "deterministic simulation: seeded scheduler over the real merge/pool/repository code + simulated registry with failure injection; quiescence oracle against the registry model", "4.C14"),
  "C16": ("exploration", "seeded search over multi-host histories and concurrent request mixes through one auth.Client (cache flavours none/shared/single-context) against simulated registries, token servers and a CDN; every outgoing request is scanned at the innermost RoundTripper for every secret of every host; send/fetch counts per request; overlap of token fetches; scope canonicaliser compared with a set-based one", "deterministic simulation: seeded scheduler over the real auth client/cache/Once code + simulated multi-host world (RoundTripper seam); secret-flow monitor", "4.C16"),
+ "C17": ("exploration", "seeded search over server behaviour sequences x body kinds and sizes x policy parameters x cancellation instants, through auth.Client over retry.Transport; bodies recorded per attempt by the simulated server, pauses measured on the simulated clock, plus direct policy questions for attempt numbers up to 200", "deterministic simulation with a simulated clock (testing/synctest) and a fault-sequencing server at the RoundTripper seam; per-attempt body and pause oracle", "4.C17"),
 }
 ids = [json.loads(l)["id"] for l in open(os.path.join(V, "properties.jsonl"))]
 checks = []
